@@ -19,8 +19,10 @@ import (
 	"strings"
 
 	"github.com/antonmedv/expr"
+	"github.com/antonmedv/expr/ast"
 	"github.com/antonmedv/expr/checker"
 	"github.com/antonmedv/expr/conf"
+	"github.com/antonmedv/expr/file"
 	"github.com/antonmedv/expr/parser"
 )
 
@@ -442,7 +444,7 @@ func (g *c03gen) nestedTop(depth int) string {
 // the error paths of the checker — which error is reported first, where, and how the tree is annotated.
 func (g *c03gen) untyped(d int) string {
 	atoms := []string{"I", "I8", "U64", "F64", "F32", "B", "Str", "Any", "Ints", "Strs", "Anys", "Arr", "MSI", "MII", "St", "PSt", "Sts", "My",
-		"Fi", "Mi", "Amb", "Nope", "1", "2", "0", "1.5", "\"a\"", "\"k\"", "true", "false", "nil"}
+		"Fi", "Mi", "Amb", "PPSt", "Sg", "Zs", "Nope", "1", "2", "0", "1.5", "\"a\"", "\"k\"", "true", "false", "nil"}
 	if len(g.closure) > 0 {
 		atoms = append(atoms, "#", "#", "#")
 	}
@@ -699,6 +701,11 @@ func runC03(c *Ctx) {
 	}{{"nil", 1}, {"Fs(1)", 0}, {"filter(Ints, {# > 1})", 0}, {"map(Ints, {# + 1})", 0}, {"MSI[1]", 0}, {"Ints[\"a\"]", 0},
 		{"My == 1", 0}, {"map(Ints, {nil})", 0}, {"Ff(+U64)", 0}, {"Fi(F64 + 1)", 0}, {"Arr[:]", 0}, {"len(Arr[1:2])", 0}, {"{(1): 2}", 0}, {"MSI[:]", 0}, {"F32 in MII", 0}, {"Any?.x", 1}, {"1 + 2", 2}, {"I8 + 1", 2}, {"F32 * 2", 3}, {"I", 3}, {"Str", 2}, {"B", 1}, {"I", 1},
 		{"Fx(1, \"a\")", 0}, {"Fx()", 0}, {"Fy(1)", 0}, {"Mx(1, 2)", 0}, {"Mx()", 0}, {"Fn()", 0}, {"F2()", 0}, {"Fx(Nope)", 0},
+		{"B ? Zs : Sg", 0}, {"B ? Sg : Zs", 0}, {"B ? Sg : Sg", 0}, {"Sg.String()", 0}, {"Zs.String()", 0}, {"PPSt.X", 0}, {"PPSt?.Y", 0},
+		{"My + I", 0}, {"I + My", 0}, {"My * 2", 0}, {"2 * My", 0}, {"My - My", 0}, {"My % I", 0}, {"F64 + F64", 0},
+		{"Any in MSI", 0}, {"Any in MII", 0}, {"Any not in MSI", 0}, {"nil in MSI", 0}, {"I in MII", 0}, {"Str in MII", 0},
+		{"Ff(1 / 2)", 0}, {"Ff(4 / 2)", 0}, {"Ff(1 - 2)", 0}, {"Ff(2 * 3)", 0}, {"Ff(-1)", 0}, {"Ff(+1)", 0}, {"Ff(-(1 + 2))", 0}, {"Fi(1 / 2)", 0},
+		{"Ff(I / 2)", 0}, {"Ff(1 + 2 * 3)", 0}, {"Ff(1 % 2)", 0}, {"Ff(not 1)", 0}, {"Fa(1 + 2)", 0}, {"Fa(-1)", 0}, {"Fv(\"s\", 1 + 2, -3)", 0},
 		{"St?.Nope()", 0}, {"St.Nope()", 0}, {"PSt?.Nope(1)", 0}, {"Any?.Nope()", 0}, {"St?.Nope", 0}, {"Nope?.x", 0}, {"Sts[0]?.Nope(Nope)", 0}} {
 		cases = append(cases, c03Case{env: envs[0], src: s.src, expect: s.ex, static: false, goal: nil})
 	}
@@ -792,6 +799,7 @@ func runC03(c *Ctx) {
 		c03Oracle(c, cs)
 	}
 	c03IfaceArith(c)
+	c03Synthetic(c, envs[0])
 	for _, k := range []string{"check:accepted", "check:rejected", "oracle:static-runs", "oracle:mutants-rejected", "nested:well-typed", "nested:mutants"} {
 		if c.R.Counters[k] == 0 {
 			c.R.Mismatch("generator", k, "", "counter is zero")
@@ -819,6 +827,85 @@ func c03RealCheck(cs c03Case) (out string) {
 		return L(A("err"), line, col, A(errClassOf(e.List[3].Str())), canonTy(nodeSx(tree.Node, true))).String()
 	}
 	return L(A("ok"), cty(ty), canonTy(nodeSx(tree.Node, true))).String()
+}
+
+// c03Synthetic: trees the parser never builds (a Patch visitor or the optimizer can): builtins with a
+// wrong number of arguments, unknown builtins and operators, a ConstantNode, `#` outside a closure.
+// Tie only: model vs checker.Check on the same tree.
+func c03Synthetic(c *Ctx, e zooEnv) {
+	id := func(n string) ast.Node { return &ast.IdentifierNode{Value: n} }
+	in := func(v int) ast.Node { return &ast.IntegerNode{Value: v} }
+	cl := func(n ast.Node) ast.Node { return &ast.ClosureNode{Node: n} }
+	trees := []func() ast.Node{
+		func() ast.Node { return &ast.BuiltinNode{Name: "len", Arguments: []ast.Node{id("Ints"), id("Ints")}} },
+		func() ast.Node { return &ast.BuiltinNode{Name: "len", Arguments: nil} },
+		func() ast.Node { return &ast.BuiltinNode{Name: "len", Arguments: []ast.Node{id("Nope"), id("Ints")}} },
+		func() ast.Node { return &ast.BuiltinNode{Name: "all", Arguments: []ast.Node{id("Ints")}} },
+		func() ast.Node {
+			return &ast.BuiltinNode{Name: "all", Arguments: []ast.Node{id("Ints"), cl(&ast.BoolNode{Value: true}), in(1)}}
+		},
+		func() ast.Node { return &ast.BuiltinNode{Name: "count", Arguments: nil} },
+		func() ast.Node { return &ast.BuiltinNode{Name: "foo", Arguments: []ast.Node{id("Ints"), cl(in(1))}} },
+		func() ast.Node { return &ast.BuiltinNode{Name: "foo", Arguments: []ast.Node{id("Ints")}} },
+		func() ast.Node { return &ast.BuiltinNode{Name: "filter", Arguments: []ast.Node{id("Ints"), in(1)}} },
+		func() ast.Node { return &ast.BuiltinNode{Name: "map", Arguments: []ast.Node{in(1), cl(in(1))}} },
+		func() ast.Node { return &ast.ConstantNode{Value: 1} },
+		func() ast.Node {
+			return &ast.BinaryNode{Operator: "+", Left: &ast.ConstantNode{Value: 1}, Right: in(2)}
+		},
+		func() ast.Node {
+			return &ast.BinaryNode{Operator: "+", Left: &ast.ConstantNode{Value: "s"}, Right: in(2)}
+		},
+		func() ast.Node { return &ast.BinaryNode{Operator: "^^", Left: in(1), Right: in(2)} },
+		func() ast.Node { return &ast.UnaryNode{Operator: "~", Node: in(1)} },
+		func() ast.Node { return &ast.PointerNode{} },
+		func() ast.Node { return &ast.BinaryNode{Operator: "+", Left: &ast.PointerNode{}, Right: id("Nope")} },
+		func() ast.Node { return &ast.PairNode{Key: in(1), Value: in(2)} },
+		func() ast.Node { return &ast.ClosureNode{Node: &ast.NilNode{}} },
+	}
+	var reqs []string
+	var reals []string
+	for _, mk := range trees {
+		reqs = append(reqs, L(A("c03-check"), A(c03Model()), envSx(e.Val), SBool(true), A("none"), nodeSx(mk(), false)).String())
+		real := ""
+		func() {
+			defer func() {
+				if r := recover(); r != nil {
+					real = "(panic)"
+				}
+			}()
+			tree := &parser.Tree{Node: mk(), Source: file.NewSource("synthetic")}
+			ty, err := checker.Check(tree, conf.New(e.Val))
+			if err != nil {
+				es := errSx(err)
+				line, col := es.List[1], es.List[2]
+				if line.Atom == "-1" || strings.HasPrefix(err.Error(), "expected ") {
+					real = L(A("err"), A("-1"), A("-1"), A(errClassOf(err.Error())), canonTy(nodeSx(tree.Node, true))).String()
+				} else {
+					real = L(A("err"), line, col, A(errClassOf(es.List[3].Str())), canonTy(nodeSx(tree.Node, true))).String()
+				}
+				return
+			}
+			real = L(A("ok"), cty(ty), canonTy(nodeSx(tree.Node, true))).String()
+		}()
+		reals = append(reals, real)
+	}
+	resp, err := c.AskAll(reqs)
+	if err != nil {
+		c.R.Mismatch("driver", "c03-check (synthetic)", err.Error(), "")
+		return
+	}
+	for i := range reqs {
+		c.R.Case(fmt.Sprintf("synthetic|%d", i), true)
+		c.R.Count("synthetic-trees", 1)
+		model := resp[i]
+		if sx, perr := ParseSx(model); perr == nil {
+			model = canonTy(sx).String()
+		}
+		if model != reals[i] {
+			c.R.Mismatch("c03/check-synthetic", fmt.Sprintf("tree #%d %s", i, nodeSx(trees[i](), false).String()), model, reals[i])
+		}
+	}
 }
 
 func c03Oracle(c *Ctx, cs c03Case) {
